@@ -347,6 +347,19 @@ class CEval:
             if bn in ("max", "min"):
                 return (max if bn == "max" else min)(*args)
             raise Unknown(f"call {bn}")
+        if ref is not None and ref.qual.endswith(".make_diagonal"):
+            # autograd's complement of np.diagonal: a new trailing axis pair holding the last axis on its diagonal;
+            # it raises for anything but offset=0, axis1=-1, axis2=-2 (its own guard, evaluated here)
+            args = [self.of(a) for a in list(pre) + list(t.args)]
+            kw = {k: self.of(v) for k, v in t.kw.items()}
+            off = kw.get("offset", args[1] if len(args) > 1 else 0)
+            a1 = kw.get("axis1", args[2] if len(args) > 2 else 0)
+            a2 = kw.get("axis2", args[3] if len(args) > 3 else 1)
+            if not (off == 0 and a1 == -1 and a2 == -2):
+                raise Raises("make_diagonal guard")
+            if not isinstance(args[0], Perm) or args[0].ndim < 1:
+                raise Unknown("make_diagonal operand")
+            return Perm(list(args[0].axes) + [args[0].axes[-1]])
         if ref is not None and ref.qual == "autograd.builtins.isinstance":
             v = self.of(t.args[0])
             ty = t.args[1]
@@ -358,11 +371,26 @@ class CEval:
         raise Unknown("call")
 
 
+def np_diagonal_layout(p, offset, axis1, axis2):
+    """labels of diagonal(x): the two diagonal axes removed, one axis carrying the diagonal appended"""
+    n = p.ndim
+    a1, a2 = norm_axis(axis1, n), norm_axis(axis2, n)
+    if a1 == a2:
+        raise Raises("axis1 and axis2 cannot be the same")
+    return Perm([x for i, x in enumerate(p.axes) if i not in (a1, a2)] + ["D"])
+
+
+def diagonal_expected(n, axis1, axis2):
+    a1, a2 = axis1 % n, axis2 % n
+    return Perm(["D" if i in (a1, a2) else i for i in range(n)])
+
+
 PERM_PRIMS = {
     "swapaxes": lambda p, a: np_swapaxes(p, a[1], a[2]),
     "moveaxis": lambda p, a: np_moveaxis(p, a[1], a[2]),
     "rollaxis": lambda p, a: np_rollaxis(p, a[1], a.get(2, 0)),
     "transpose": lambda p, a: np_transpose(p, a.get(1)),
+    "diagonal": lambda p, a: np_diagonal_layout(p, a.get(1, a.get("offset", 0)), a.get(2, a.get("axis1", 0)), a.get(3, a.get("axis2", 1))),
 }
 
 
@@ -383,6 +411,13 @@ def configs(bn, n):
         for i in ax:
             for s in range(-n, n + 1):
                 yield {1: i, 2: s}
+    elif bn == "diagonal":
+        if n >= 2:
+            yield {}
+            for i, j in itertools.product(ax, ax):
+                if i % n != j % n:
+                    yield {1: 0, 2: i, 3: j}
+                    yield {"offset": 0, "axis1": i, "axis2": j}
     elif bn == "transpose":
         yield {}
         for p in itertools.permutations(range(n)):
@@ -392,7 +427,7 @@ def configs(bn, n):
 
 
 def permutations_rule(ctx, world):
-    ctx.describe("A16", "for every axis-permuting primitive (swapaxes, moveaxis, rollaxis, transpose) and EVERY rank 1..4 and every axis configuration NumPy accepts (negative axes, tuples), the VJP rule - evaluated on the finite domain of axis permutations with an exact model of NumPy's axis functions - returns the cotangent in the argument's axis order, or raises")
+    ctx.describe("A16", "for every axis-permuting primitive (swapaxes, moveaxis, rollaxis, transpose; diagonal with the diagonal axis as a label) and EVERY rank 1..4 and every axis configuration NumPy accepts (negative axes, tuples), the VJP rule - evaluated on the finite domain of axis permutations with an exact model of NumPy's axis functions - returns the cotangent in the argument's axis order, or raises")
     n_inst = 0
     for e in world.table.entries:
         if e.mode != "vjp" or e.spec != "maker" or not is_numpy_callable(e.prim) or e.argnum != 0:
@@ -419,6 +454,9 @@ def permutations_rule(ctx, world):
                 except Exception:
                     continue
                 env = {0: ident, **cfg}
+                want = ident
+                if bn == "diagonal":
+                    want = diagonal_expected(n, cfg.get(2, cfg.get("axis1", 0)), cfg.get(3, cfg.get("axis2", 1)))
                 try:
                     C = CEval(world, env, g=gperm, ans=gperm)
                     out = C.of(ir.made)  # construction-time guards
@@ -432,18 +470,18 @@ def permutations_rule(ctx, world):
                     unknown += 1
                     continue
                 decided += 1
-                if res != ident and bad is None:
-                    bad = (n, cfg, res)
+                if res != want and bad is None:
+                    bad = (n, cfg, res, want)
         inst = construct_of(e)
         ctx.extra["A16_configurations_evaluated"] = ctx.extra.get("A16_configurations_evaluated", 0) + total
         if bad is not None:
-            n, cfg, res = bad
+            n, cfg, res, want = bad
             ctx.fail(
                 "A16",
                 inst,
                 inst,
                 e.loc,
-                f"for a rank-{n} argument and {bn} configuration {cfg} the rule returns the cotangent with axes {res.axes if isinstance(res, Perm) else res} instead of {tuple(range(n))}: it does not apply the inverse permutation",
+                f"for a rank-{n} argument and {bn} configuration {cfg} the rule returns the cotangent with axes {res.axes if isinstance(res, Perm) else res} instead of {want.axes}: it does not apply the inverse permutation",
                 f"np.{bn} of a rank-{n} array with {cfg}",
                 sample=f"{decided}/{total} configurations decided",
             )
